@@ -355,6 +355,9 @@ func (e *Env) Exec(line string) string {
 			b.WriteString(sb.String() + "\n")
 		}
 	}
+	for _, x := range rec.extra {
+		b.WriteString(x + "\n")
+	}
 	for _, r := range rlines {
 		b.WriteString("R " + r + "\n")
 	}
